@@ -572,7 +572,11 @@ def classify(case, witness):
     if "proj_segment" not in tb:
         return None
     try:
-        mt = case["matchings"][int(witness["matching"])]
+        k = int(witness["matching"])
+        # the matching that follows the listed ones is the first one repeated after the network (and the track) were
+        # moved in place by one and the same vector: "a fix has the abscissa of a vertical leg" is the same statement
+        # before and after that move
+        mt = case["matchings"][k] if k < len(case["matchings"]) else case["matchings"][0]
     except Exception:
         return None
     xs = set()
